@@ -3,9 +3,12 @@
    from record to record: dynamic record sizing), and Conn.Read (one record at a time, short reads, empty
    records skipped).  Record protection is a parameter: [seal seq fragment] / [open seq record].
    No proofs in this file. *)
+From Coq Require Import String.
 From Coq Require Import List NArith Arith Bool.
-From GmsmVerif Require Import Lib.Outcome.
+From GmsmVerif Require Import Lib.Outcome Gen.TLSSuites.
 Import ListNotations.
+Close Scope N_scope.
+Close Scope string_scope.
 
 Notation byte := N (only parsing).
 
@@ -27,23 +30,39 @@ Fixpoint writeRecordLocked (fuel : nat) (bound : nat -> nat) (pkt : nat) (data :
     end
   end.
 
-(* Conn.Write(b): split = the connection uses a block cipher at version <= TLS 1.0 *)
-Definition conn_write (split : bool) (bound : nat -> nat) (pkt : nat) (b : list byte)
+(* a comparison operator as the translator reads it from a condition in the source *)
+Definition cmp_op (op : String.string) (x y : N) : bool :=
+  if String.eqb op "<="%string then N.leb x y
+  else if String.eqb op "<"%string then N.ltb x y
+  else if String.eqb op ">="%string then N.leb y x
+  else if String.eqb op ">"%string then N.ltb y x
+  else if String.eqb op "=="%string then N.eqb x y
+  else if String.eqb op "!="%string then negb (N.eqb x y)
+  else false.
+
+(* Conn.Write: "if len(b) > 1 && c.vers <= VersionTLS10 { if _, ok := c.out.cipher.(cipher.BlockMode); ok { ..."
+   - operators and bounds are the generated ones (Gen/TLSSuites.v: gen_splitLenOp, gen_splitLenBound, gen_splitVersOp, gen_splitVersBound) *)
+Definition write_splits (vers : N) (blockmode : bool) (n : nat) : bool :=
+  (cmp_op gen_splitLenOp (N.of_nat n) gen_splitLenBound
+   && cmp_op gen_splitVersOp vers gen_splitVersBound && blockmode)%bool.
+
+(* Conn.Write(b): [splits (len b)] says whether this call writes b[:1] as a record of its own first *)
+Definition conn_write (splits : nat -> bool) (bound : nat -> nat) (pkt : nat) (b : list byte)
   : outcome (list (list byte) * nat) :=
-  if (split && Nat.ltb 1 (length b))%bool then
+  if splits (length b) then
     do '(f1, pkt1) <- writeRecordLocked (length b) bound pkt (firstn 1 b);
     do '(f2, pkt2) <- writeRecordLocked (length b) bound pkt1 (skipn 1 b);
     Ok (f1 ++ f2, pkt2)
   else writeRecordLocked (length b) bound pkt b.
 
 (* a sequence of Write calls: the fragments put on the wire, in order *)
-Fixpoint write_all (split : bool) (bound : nat -> nat) (pkt : nat) (writes : list (list byte))
+Fixpoint write_all (splits : nat -> bool) (bound : nat -> nat) (pkt : nat) (writes : list (list byte))
   : outcome (list (list byte)) :=
   match writes with
   | [] => Ok []
   | b :: t =>
-    do '(f, pkt') <- conn_write split bound pkt b;
-    do rest <- write_all split bound pkt' t;
+    do '(f, pkt') <- conn_write splits bound pkt b;
+    do rest <- write_all splits bound pkt' t;
     Ok (f ++ rest)
   end.
 
